@@ -271,6 +271,21 @@ def main():
             else:
                 violations.append(({"name": v["name"]}, path, ""))
 
+    # engine self-test: toy programs with known verdicts through the whole pipeline (loops, comprehensions, iterators,
+    # string predicates); a verifier that fails it is not believed
+    selftest = None
+    if not os.environ.get("PYVC_NO_SELFTEST"):
+        try:
+            p = subprocess.run([sys.executable, "-W", "ignore", "-m", "pyvc.selftest"], capture_output=True, text=True,
+                               timeout=600, cwd=HERE, env=dict(os.environ, VERIF_REPO=REPO))
+            oks = p.stdout.count("\nok ") + (1 if p.stdout.startswith("ok ") else 0)
+            selftest = {"exit": p.returncode, "ok": oks, "failed": p.stdout.count("FAIL ")}
+            if p.returncode != 0:
+                errors.append("pyvc self-test failed: " + " | ".join(l for l in p.stdout.splitlines() if l.startswith("FAIL"))[:400])
+        except Exception as e:
+            selftest = {"error": repr(e)}
+            errors.append(f"pyvc self-test could not run: {e!r}")
+
     # background lemmas (pure mathematics) in Lean: thorough tier only (cold start of Mathlib takes minutes)
     lean_info = None
     if prop.get("lean"):
@@ -338,6 +353,7 @@ def main():
         "samples": [o["name"] + " : " + o["status"] + " by " + str(o.get("backend")) for o in all_obs[:12]],
         "bounded_standins": rt_results,
         "lean_background": lean_info,
+        "engine_selftest": selftest,
     }
     ev_eval = sum(r.get("evaluations", 0) for r in rt_results)
     if rt_results:
